@@ -122,6 +122,11 @@ func variantTrip(res *harness.R, T reflect.Type, v reflect.Value, sep bool, entr
 	for _, d := range out.Violations {
 		sig := d.Sig
 		switch {
+		case predicateSig[sig]:
+			// identified by a predicate over source and result alone (the
+			// open findings about nils): the same deviation whatever variant
+			// the trip ran under, also when the plain trip of the pair stops
+			// at another deviation first (thorough tier, seed 5)
 		case x.otherBefore && !fresh[sig]:
 			sig = "depends-on-earlier-unpack-of-the-type-under-another-struct-tag:" + sig
 		case !x.plain() && !plain[sig]:
@@ -297,4 +302,13 @@ func addAlt(t reflect.Type) reflect.Type {
 		return reflect.StructOf(fs)
 	}
 	return t
+}
+
+// predicateSig: signatures the comparer gives on the shape of source and
+// result alone; the variant attribution never renames them.
+var predicateSig = map[string]bool{
+	"pointer-to-nil-pointer-comes-back-nil":              true,
+	"nil-pointer-spelling-comes-back-allocated":          true,
+	"same-name-fields:nil-one-receives-the-others-value": true,
+	"inline-map-receives-sibling-keys":                   true,
 }
